@@ -45,6 +45,8 @@ def model_ops(c, hist):
     out = []
     for op, h in zip(c["ops"], hist):
         k = op[0]
+        if h[0] == "skip":
+            continue
         if k == "get_waterfall":
             out.append("GetWaterfall")
         elif k == "copy":
